@@ -1,4 +1,604 @@
-(* RSession.v -- stub; the model that belongs here is being written. *)
-From P7 Require Import Prelude.
+(* RSession.v -- the read-mode session of py7zr.SevenZipFile as a state machine (property C12).
+
+   Mirrors, at the level of whole decoded streams:
+     SevenZipFile.__init__ mode 'r' (py7zr.py l.341-398: modeDict and the open retry loop),
+     getnames/list/getinfo/archiveinfo/needs_password (l.941-1010),
+     _extract registration (l.529-621), reset (l.1166-1175), test/_read_digest (l.1177-1193, 792-800),
+     testzip (l.1195-1207), close/_fpclose (l.1148-1164, 423-425),
+     Worker.extract / extract_single / _extract_single / _check / decompress (l.1256-1510),
+     Folder.get_decompressor (archiveinfo.py l.438-443: the decompressor is cached in the folder).
+
+   Abstraction.  A folder's coder chain is not run: the folder comes with its decoded stream
+   [fo_stream] (what a freshly created SevenZipDecompressor delivers, in order, whatever chunk
+   sizes are asked for) and its packed size.  A cached SevenZipDecompressor is then exactly
+   (packed bytes consumed, decoded bytes delivered); asking an exhausted one for more yields b""
+   for ever, which is the loop of Worker.decompress that never ends (fuel exhaustion, Err EFuel,
+   for EVERY amount of fuel: lemma wloop_short in RSessionProofs.v).
+   Assumptions of the abstraction (checked by the harness on every archive it uses): one packed
+   stream per folder, packed size <= block size (one fp.read per decoder), no folder-level CRC,
+   packpos = 0, regular files / directories only, distinct member names.
+
+   Part 1 of 1: definitions only (all computable; extracted).  Proofs: RSessionProofs.v. *)
+From P7 Require Import Prelude Crc32.
 Open Scope Z_scope.
-Definition rsession_dispatch (fn : Z) (a : tree) : tree := TL [TI (-2)].
+
+Definition blen (b : bytes) : Z := Z.of_nat (length b).
+
+(* s[p : p+n] for 0 <= p, 0 <= n *)
+Definition take (s : bytes) (p n : Z) : bytes := firstn (Z.to_nat n) (skipn (Z.to_nat p) s).
+
+(* ------------------------------------------------------------------ *)
+(** * The constructor's file mode (l.359-378)                          *)
+(* ------------------------------------------------------------------ *)
+(* SevenZipFile modes r w x a and the modes given to open() *)
+Inductive fm := Fr | Fw | Fx | Fa | Frb | Fwpb | Fxpb | Frpb | Fwb | Fxb.
+
+(* modeDict *)
+Definition mode_dict (k : fm) : option fm :=
+  match k with
+  | Fr => Some Frb | Fw => Some Fwpb | Fx => Some Fxpb | Fa => Some Frpb
+  | Frpb => Some Fwpb | Fwpb => Some Fwb | Fxpb => Some Fxb
+  | _ => None
+  end.
+
+(* while True: try open(file, filemode) except OSError: if filemode in modeDict: filemode = modeDict[filemode]; continue; raise
+   [can m] = open(file, m) succeeds.  The chain of modeDict is at most 3 long. *)
+Fixpoint open_loop (fuel : nat) (can : fm -> bool) (filemode : fm) : option fm :=
+  if can filemode then Some filemode
+  else match fuel with
+       | O => None
+       | S f => match mode_dict filemode with Some m => open_loop f can m | None => None end
+       end.
+
+Definition ctor_open (can : fm -> bool) (mode : fm) : option fm :=
+  match mode_dict mode with Some m => open_loop 4 can m | None => None end.
+
+(* a mode of open() that permits no change of the file *)
+Definition fm_readonly (m : fm) : bool := match m with Frb => true | _ => false end.
+
+(* ------------------------------------------------------------------ *)
+(** * Abstract archive                                                  *)
+(* ------------------------------------------------------------------ *)
+Inductive openkind := ByPath | ByStream | ByFileObj.   (* str / BytesIO (no name) / open file object (has .name) *)
+
+(* a member as Folder.files yields it (id = offset + index), declared size, stored digest *)
+Record mem := mkMem { m_id : Z; m_size : Z; m_crc : option Z }.
+
+(* fo_pk: packed-stream digest: None = not defined; Some b = defined, b = (CRC of the packed bytes = stored CRC) *)
+Record folder := mkFo { fo_mems : list mem; fo_stream : bytes; fo_pack : Z; fo_pk : option bool }.
+
+(* an entry of SevenZipFile.files in header order *)
+Record hent := mkH { h_id : Z; h_empty : bool; h_dir : bool; h_size : Z; h_crc : option Z }.
+
+Record arch := mkA {
+  a_files : list hent;
+  a_folders : list folder;
+  a_ah : Z;               (* self.afterheader *)
+  a_kind : openkind;
+  a_pwgiven : bool;       (* password is not None *)
+  a_enc : bool;           (* some coder needs a password *)
+  a_mb : Z;               (* get_memory_limit() *)
+  (* the two repairs proposed for the defects this model exposes; false = the code as it is.
+     a_fixz: testzip() begins with reset() (drops the cached decoders);
+     a_fixp: testzip()'s parallel flag also requires an archive opened by path, as _extract's does *)
+  a_fixz : bool;
+  a_fixp : bool
+}.
+
+Definition file_passed (A : arch) : bool := match a_kind A with ByPath => false | _ => true end.
+Definition has_name (A : arch) : bool := match a_kind A with ByStream => false | _ => true end.
+(* self.password_protected after the constructor (l.343, 523-527) *)
+Definition pp (A : arch) : bool := a_pwgiven A || a_enc A.
+Definition pw_missing (A : arch) : bool := a_enc A && negb (a_pwgiven A).
+(* parallel= of testzip() (l.1202): not self.password_protected [repaired: and not self._filePassed] *)
+Definition testzip_parallel (A : arch) : bool :=
+  negb (pp A) && (if a_fixp A then negb (file_passed A) else true).
+
+Definition ent_of_mem (m : mem) : hent := mkH (m_id m) false false (m_size m) (m_crc m).
+
+(* ------------------------------------------------------------------ *)
+(** * File operations issued on the archive                             *)
+(* ------------------------------------------------------------------ *)
+(* h = handle: 0 the session's fp, 100 the extra handle of the parallel path for empty files,
+   101+i the handle opened by the thread of folder i.  EvHdr = the reads of the header parser
+   (seek/read/tell only).  EvRead = one or several consecutive read calls. *)
+Inductive ev :=
+| EvOpen (h : Z) (m : fm) | EvSeek (h p : Z) | EvRead (h n : Z) | EvClose (h : Z)
+| EvWrite (h n : Z) | EvHdr (h : Z).
+
+Definition ev_ok (e : ev) : bool :=
+  match e with EvOpen _ m => fm_readonly m | EvWrite _ _ => false | _ => true end.
+
+(* position of the session's fp after a list of events *)
+Fixpoint fp_after (fp : Z) (es : list ev) : Z :=
+  match es with
+  | [] => fp
+  | EvSeek 0 p :: r => fp_after p r
+  | EvRead 0 n :: r => fp_after (fp + n) r
+  | _ :: r => fp_after fp r
+  end.
+
+(* ------------------------------------------------------------------ *)
+(** * Decoder cache and Worker.decompress                               *)
+(* ------------------------------------------------------------------ *)
+(* the SevenZipDecompressor cached in a folder: packed bytes read, decoded bytes handed out *)
+Record dec := mkDec { d_cons : Z; d_pos : Z }.
+
+Inductive tkind := KNone | KOut.   (* value in Worker.target_filepath: None / MemIO or Path *)
+
+Fixpoint lookup (t : list (Z * tkind)) (id : Z) : tkind :=
+  match t with [] => KNone | (k, v) :: r => if k =? id then v else lookup r id end.
+
+(* the loop of Worker.decompress (l.1492-1506) on a decoder that hands out [s] from position [p]:
+   tmp = decompressor.decompress(fp, min(out_remaining, max_block_size)); an empty tmp changes nothing. *)
+Fixpoint wloop (fuel : nat) (s : bytes) (p size mb : Z) : res (Z * bytes) :=
+  if size >? 0 then
+    match fuel with
+    | O => Err EFuel
+    | S f =>
+      let tmp := take s p (Z.min size mb) in
+      let rem := if blen tmp >? 0 then size - blen tmp else size in
+      if rem <=? 0 then Ok (p + blen tmp, tmp)
+      else match wloop f s (p + blen tmp) rem mb with
+           | Ok (p', out) => Ok (p', tmp ++ out)
+           | Err e => Err e
+           end
+    end
+  else Ok (p, []).
+
+Inductive xerr := XE (e : err) (who : Z).   (* who = id of the member named by CrcError, else -1 *)
+
+(* running state of one extract_single: the folder's decoder, events, products, first error *)
+Record xacc := mkX { x_dec : option dec; x_ev : list ev; x_out : list (Z * bytes); x_err : option xerr }.
+
+Definition set_err (x : xacc) (e : xerr) : xacc := mkX (x_dec x) (x_ev x) (x_out x) (Some e).
+Definition add_out (x : xacc) (o : Z * bytes) : xacc := mkX (x_dec x) (x_ev x) (x_out x ++ [o]) (x_err x).
+
+Section Model.
+  (* zlib.crc32 of the delivered bytes; instantiated by Crc32.crc32 below.  The theorems hold for any digest. *)
+  Variable crc : bytes -> Z.
+
+  (* Worker.decompress: folder.get_decompressor (cached, else created: PasswordRequired without a
+     password), then the loop; the first decompress call of a decoder reads the packed stream *)
+  Definition wdecomp (A : arch) (fo : folder) (h : Z) (x : xacc) (size : Z) : xacc * bytes :=
+    match x_err x with
+    | Some _ => (x, [])
+    | None =>
+      match (match x_dec x with
+             | Some d => Ok d
+             | None => if pw_missing A then Err EPassword else Ok (mkDec 0 0)
+             end) with
+      | Err e => (set_err x (XE e (-1)), [])
+      | Ok d =>
+        if size >? 0 then
+          let rd := if d_cons d <? fo_pack fo then [EvRead h (fo_pack fo - d_cons d)] else [] in
+          let c' := Z.max (d_cons d) (fo_pack fo) in
+          match wloop (S (Z.to_nat size)) (fo_stream fo) (d_pos d) size (a_mb A) with
+          | Ok (p', out) => (mkX (Some (mkDec c' p')) (x_ev x ++ rd) (x_out x) None, out)
+          | Err e => (mkX (Some (mkDec c' (d_pos d))) (x_ev x ++ rd) (x_out x) (Some (XE e (-1))), [])
+          end
+        else (mkX (Some d) (x_ev x) (x_out x) None, [])
+      end
+    end.
+
+  Definition crc_bad (c : option Z) (data : bytes) : bool :=
+    match c with Some v => negb (crc data =? v) | None => false end.
+
+  (* one iteration of _check (l.1447-1455) *)
+  Definition check1 (A : arch) (fo : folder) (h : Z) (x : xacc) (f : hent) : xacc :=
+    let '(x', data) := wdecomp A fo h x (h_size f) in
+    match x_err x' with
+    | Some _ => x'
+    | None => if crc_bad (h_crc f) data then set_err x' (XE ECrc (h_id f)) else x'
+    end.
+
+  Definition check_list (A : arch) (fo : folder) (h : Z) (x : xacc) (jc : list hent) : xacc :=
+    fold_left (check1 A fo h) jc x.
+
+  (* the loop of _extract_single (l.1378-1443); jc = just_check *)
+  Fixpoint xs_loop (A : arch) (fo : folder) (h : Z) (tg : Z -> tkind) (fs jc : list hent) (x : xacc)
+    : list hent * xacc :=
+    match fs with
+    | [] => (jc, x)
+    | f :: r =>
+      match x_err x with
+      | Some _ => (jc, x)
+      | None =>
+        match tg (h_id f) with
+        | KNone => xs_loop A fo h tg r (if h_empty f then jc else jc ++ [f]) x
+        | KOut =>
+          let x1 := check_list A fo h x jc in
+          match x_err x1 with
+          | Some _ => ([], x1)
+          | None =>
+            if h_empty f then xs_loop A fo h tg r [] (add_out x1 (h_id f, []))
+            else
+              let '(x2, data) := wdecomp A fo h x1 (h_size f) in
+              match x_err x2 with
+              | Some _ => ([], x2)
+              | None =>
+                (* the product exists and holds the data before the digest is compared *)
+                let x3 := add_out x2 (h_id f, data) in
+                if crc_bad (h_crc f) data then ([], set_err x3 (XE ECrc (h_id f)))
+                else xs_loop A fo h tg r [] x3
+              end
+          end
+        end
+      end
+    end.
+
+  Definition extract_single (A : arch) (fo : folder) (h : Z) (tg : Z -> tkind) (skip : bool)
+             (fs : list hent) (x : xacc) : xacc :=
+    let '(jc, x1) := xs_loop A fo h tg fs [] x in
+    if skip then x1 else check_list A fo h x1 jc.
+
+  Definition has_target (tg : Z -> tkind) (ms : list mem) : bool :=
+    existsb (fun m => match tg (m_id m) with KOut => true | KNone => false end) ms.
+
+  Definition dummy_folder : folder := mkFo [] [] 0 None.
+  Definition empties (A : arch) : list hent := filter h_empty (a_files A).
+
+  (* result of the folder loops: decoders, events, products, first error *)
+  Definition wres : Type := (list (option dec) * list ev * list (Z * bytes) * option xerr)%type.
+
+  (* Worker.extract, not parallel, numfolders <> 1 (l.1292-1306) *)
+  Fixpoint seq_folders (A : arch) (tg : Z -> tkind) (skip : bool) (fos : list folder)
+           (decs : list (option dec)) (pos : Z) (evs : list ev) (out : list (Z * bytes)) : wres :=
+    match fos, decs with
+    | fo :: fr, d :: dr =>
+      if skip && negb (has_target tg (fo_mems fo)) then
+        let '(ds, e, o, er) := seq_folders A tg skip fr dr (pos + fo_pack fo) evs out in
+        (d :: ds, e, o, er)
+      else
+        let x := extract_single A fo 0 tg skip (map ent_of_mem (fo_mems fo))
+                                (mkX d (evs ++ [EvSeek 0 (a_ah A + pos)]) out None) in
+        match x_err x with
+        | Some e => (x_dec x :: dr, x_ev x, x_out x, Some e)
+        | None =>
+          let '(ds, e, o, er) := seq_folders A tg skip fr dr (pos + fo_pack fo) (x_ev x) (x_out x) in
+          (x_dec x :: ds, e, o, er)
+        end
+    | _, _ => (decs, evs, out, None)
+    end.
+
+  Definition is_hang (e : option xerr) : bool :=
+    match e with Some (XE EFuel _) => true | _ => false end.
+
+  (* Worker.extract, parallel (l.1307-1340): one thread per folder, each opening the file by name;
+     a thread that never ends blocks join for ever; otherwise the first queued exception is raised
+     (with several failing folders the queue order is a race: the model takes folder order) *)
+  Fixpoint par_folders (A : arch) (tg : Z -> tkind) (skip : bool) (fos : list folder)
+           (decs : list (option dec)) (pos : Z) (i : Z) (evs : list ev) (out : list (Z * bytes))
+           (er : option xerr) (hang : bool) : wres * bool :=
+    match fos, decs with
+    | fo :: fr, d :: dr =>
+      if skip && negb (has_target tg (fo_mems fo)) then
+        let '((ds, e, o, er'), hg) := par_folders A tg skip fr dr (pos + fo_pack fo) (i + 1) evs out er hang in
+        ((d :: ds, e, o, er'), hg)
+      else
+        let h := 101 + i in
+        let x := extract_single A fo h tg skip (map ent_of_mem (fo_mems fo))
+                                (mkX d (evs ++ [EvOpen h Frb; EvSeek h (a_ah A + pos)]) out None) in
+        let er1 := match er with Some _ => er | None => x_err x end in
+        let '((ds, e, o, er'), hg) := par_folders A tg skip fr dr (pos + fo_pack fo) (i + 1) (x_ev x) (x_out x)
+                                                  er1 (hang || is_hang (x_err x)) in
+        ((x_dec x :: ds, e, o, er'), hg)
+    | _, _ => ((decs, evs, out, er), hang)
+    end.
+
+  (* Worker.extract (l.1272-1342) *)
+  Definition wextract (A : arch) (tg : Z -> tkind) (decs : list (option dec)) (parallel skip : bool) : wres :=
+    match a_folders A with
+    | [fo] =>
+      let x := extract_single A fo 0 tg skip (a_files A) (mkX (hd None decs) [EvSeek 0 (a_ah A)] [] None) in
+      (x_dec x :: tl decs, x_ev x, x_out x, x_err x)
+    | fos =>
+      if parallel then
+        if has_name A then
+          let x0 := extract_single A dummy_folder 100 tg true (empties A)
+                                   (mkX None [EvOpen 100 Frb; EvSeek 100 0] [] None) in
+          let '((ds, e, o, er), hg) := par_folders A tg skip fos decs 0 0 (x_ev x0) (x_out x0) None false in
+          (ds, e, o, if hg then Some (XE EFuel (-1)) else er)
+        else (decs, [], [], Some (XE EOther (-1)))          (* InternalError *)
+      else
+        let x0 := extract_single A dummy_folder 0 tg true (empties A) (mkX None [EvSeek 0 0] [] None) in
+        seq_folders A tg skip fos decs 0 (x_ev x0) (x_out x0)
+    end.
+
+  (* ------------------------------------------------------------------ *)
+  (** * The eleven calls                                                 *)
+  (* ------------------------------------------------------------------ *)
+  Inductive op :=
+  | OGetnames | OList | OGetinfo | OArchiveinfo | OTest | OTestzip
+  | OXallF | OXallP | OExt (T : list Z) | OReset | ONeedsPw.
+
+  Inductive value :=
+  | VNames (ids : list Z) | VPure | VBool (b : bool) | VVerdict (v : option bool) | VZip (bad : option Z)
+  | VDeliv (files : list (Z * bytes)) (dirs : list Z) | VUnit.
+  Definition result : Type := res value.
+
+  (* registration loop of _extract (l.572-607) in call order; sel = the targets filter *)
+  Definition regs (A : arch) (sel : hent -> bool) : list (Z * tkind) :=
+    flat_map (fun f => if sel f then (if h_dir f then [] else [(h_id f, KOut)]) else [(h_id f, KNone)])
+             (a_files A).
+
+  Definition sel_all (f : hent) : bool := true.
+  Definition sel_in (T : list Z) (f : hent) : bool := existsb (Z.eqb (h_id f)) T.
+
+  (* test() after its seek (l.1180-1193) *)
+  Fixpoint test_loop (ah : Z) (fos : list folder) (pos : Z) : list ev * bool :=
+    match fos with
+    | [] => ([], true)
+    | fo :: r =>
+      match fo_pk fo with
+      | None => test_loop ah r (pos + fo_pack fo)
+      | Some ok =>
+        let e := EvSeek 0 (ah + pos) :: (if fo_pack fo >? 0 then [EvRead 0 (fo_pack fo)] else []) in
+        if ok then let '(e2, b) := test_loop ah r (pos + fo_pack fo) in (e ++ e2, b)
+        else (e, false)
+      end
+    end.
+
+  Definition pk_defined (fo : folder) : bool := match fo_pk fo with Some _ => true | None => false end.
+
+  Definition extract_op (A : arch) (tgt : list (Z * tkind)) (decs : list (option dec))
+             (sel : hent -> bool) (with_dirs : bool)
+    : list (Z * tkind) * list (option dec) * list ev * result :=
+    let tgt' := rev (regs A sel) ++ tgt in
+    let '(ds, e, o, er) := wextract A (lookup tgt') decs (negb (pp A) && negb (file_passed A)) true in
+    (tgt', ds, e,
+     match er with
+     | Some (XE err _) => Err err
+     | None => Ok (VDeliv o (if with_dirs then map h_id (filter (fun f => sel f && h_dir f) (a_files A)) else []))
+     end).
+
+  (* one call: new target map, new decoder cache, events on the archive, result *)
+  Definition core (A : arch) (tgt : list (Z * tkind)) (decs : list (option dec)) (o : op)
+    : list (Z * tkind) * list (option dec) * list ev * result :=
+    match o with
+    | OGetnames => (tgt, decs, [], Ok (VNames (map h_id (a_files A))))
+    | OList => (tgt, decs, [], Ok VPure)
+    | OGetinfo => (tgt, decs, [], Ok VPure)
+    | OArchiveinfo => (tgt, decs, [], if has_name A then Ok VPure else Err EOther)   (* assert fname is not None *)
+    | ONeedsPw => (tgt, decs, [], Ok (VBool (pp A)))
+    | OReset => ([], map (fun _ => None) (a_folders A), [EvSeek 0 (a_ah A)], Ok VUnit)
+    | OTest =>
+      if existsb pk_defined (a_folders A) then
+        let '(e, b) := test_loop (a_ah A) (a_folders A) 0 in
+        ([], decs, EvSeek 0 (a_ah A) :: e, Ok (VVerdict (Some b)))
+      else ([], decs, [EvSeek 0 (a_ah A)], Ok (VVerdict None))
+    | OTestzip =>
+      let tgt' := rev (map (fun f => (h_id f, KNone)) (a_files A)) in
+      let decs0 := if a_fixz A then map (fun _ => None) (a_folders A) else decs in
+      let '(ds, e, o, er) := wextract A (lookup tgt') decs0 (testzip_parallel A) false in
+      (tgt', ds, EvSeek 0 (a_ah A) :: e,
+       match er with
+       | None => Ok (VZip None)
+       | Some (XE ECrc who) => Ok (VZip (Some who))
+       | Some (XE err _) => Err err
+       end)
+    | OXallF => extract_op A tgt decs sel_all false
+    | OXallP => extract_op A tgt decs sel_all true
+    | OExt T => extract_op A tgt decs (sel_in T) false
+    end.
+
+  (* ------------------------------------------------------------------ *)
+  (** * Session state                                                    *)
+  (* ------------------------------------------------------------------ *)
+  Record st := mkSt {
+    s_fp : Z;                          (* position of self.fp *)
+    s_tgt : list (Z * tkind);          (* self.worker.target_filepath, newest first *)
+    s_dec : list (option dec);         (* folder.decompressor of every folder *)
+    s_log : list ev                    (* every file operation so far (ghost) *)
+  }.
+
+  Definition ctor_events (A : arch) : list ev :=
+    (match a_kind A with ByPath => [EvOpen 0 Frb] | _ => [] end) ++ [EvHdr 0; EvSeek 0 (a_ah A)].
+
+  Definition close_events (A : arch) : list ev :=
+    if file_passed A then [] else [EvClose 0].
+
+  Definition fresh (A : arch) : st :=
+    mkSt (a_ah A) [] (map (fun _ => None) (a_folders A)) (ctor_events A).
+
+  Definition step (A : arch) (s : st) (o : op) : st * result :=
+    let '(t, d, e, r) := core A (s_tgt s) (s_dec s) o in
+    (mkSt (fp_after (s_fp s) e) t d (s_log s ++ e), r).
+
+  Definition step_reset (A : arch) (s : st) : st := fst (step A s OReset).
+
+  (* what later calls can depend on *)
+  Definition abs (s : st) : Z * list (Z * tkind) * list (option dec) := (s_fp s, s_tgt s, s_dec s).
+
+  (* a call that never returns ends the session *)
+  Definition hung (x : result) : bool := match x with Err EFuel => true | _ => false end.
+
+  Fixpoint run (A : arch) (s : st) (ops : list op) : list result * st :=
+    match ops with
+    | [] => ([], s)
+    | o :: r =>
+      let '(s', x) := step A s o in
+      if hung x then ([x], s')
+      else let '(xs, s'') := run A s' r in (x :: xs, s'')
+    end.
+
+  (* same, with the events and fp position of every call (for the correspondence) *)
+  Fixpoint run_trace (A : arch) (s : st) (ops : list op) : list (result * list ev * Z) :=
+    match ops with
+    | [] => []
+    | o :: r =>
+      let '(s', x) := step A s o in
+      let e := snd (fst (core A (s_tgt s) (s_dec s) o)) in
+      if hung x then [(x, e, s_fp s')] else (x, e, s_fp s') :: run_trace A s' r
+    end.
+
+  (* ------------------------------------------------------------------ *)
+  (** * The quantifier's discipline                                      *)
+  (* ------------------------------------------------------------------ *)
+  Definition is_extract (o : op) : bool :=
+    match o with OXallF | OXallP | OExt _ => true | _ => false end.
+  Definition decoding (o : op) : bool :=
+    match o with OTestzip | OXallF | OXallP | OExt _ => true | _ => false end.
+
+  (* dirty = a decoding call was made and no reset() since *)
+  Definition next_dirty (dirty : bool) (o : op) : bool :=
+    match o with OReset => false | _ => if decoding o then true else dirty end.
+
+  Fixpoint dirty_after (dirty : bool) (ops : list op) : bool :=
+    match ops with [] => dirty | o :: r => dirty_after (next_dirty dirty o) r end.
+
+  (* every extract/extractall that follows an earlier decoding call has a reset() between; test/testzip anywhere *)
+  Fixpoint disciplined (dirty : bool) (ops : list op) : bool :=
+    match ops with
+    | [] => true
+    | o :: r => if is_extract o && dirty then false else disciplined (next_dirty dirty o) r
+    end.
+
+  (* the stricter discipline under which the whole property holds: testzip too needs the reset *)
+  Fixpoint strict (dirty : bool) (ops : list op) : bool :=
+    match ops with
+    | [] => true
+    | o :: r => if decoding o && dirty then false else strict (next_dirty dirty o) r
+    end.
+
+  (* ------------------------------------------------------------------ *)
+  (** * Right verdicts (specification; no session state)                  *)
+  (* ------------------------------------------------------------------ *)
+  (* test(): None when no packed-stream digest is stored (nothing to report), else whether all stored
+     digests match *)
+  Definition test_spec (A : arch) : option bool :=
+    if existsb pk_defined (a_folders A)
+    then Some (forallb (fun fo => match fo_pk fo with Some false => false | _ => true end) (a_folders A))
+    else None.
+
+  (* testzip(): the first member, in archive order, whose bytes do not have the stored digest *)
+  Fixpoint first_bad (ms : list hent) (s : bytes) (off : Z) : option Z :=
+    match ms with
+    | [] => None
+    | m :: r => if crc_bad (h_crc m) (take s off (h_size m)) then Some (h_id m)
+                else first_bad r s (off + h_size m)
+    end.
+
+  Fixpoint zip_spec_folders (fos : list folder) : option Z :=
+    match fos with
+    | [] => None
+    | fo :: r => match first_bad (map ent_of_mem (fo_mems fo)) (fo_stream fo) 0 with
+                 | Some i => Some i
+                 | None => zip_spec_folders r
+                 end
+    end.
+
+  (* the members that have a stream, in header order *)
+  Definition data_ents (A : arch) : list hent := filter (fun f => negb (h_empty f)) (a_files A).
+
+  (* with one folder the ids are those of the header entries (Folder.files numbers its members offset+index,
+     which differs when entries without a stream lie between them) *)
+  Definition zip_spec (A : arch) : option Z :=
+    match a_folders A with
+    | [fo] => first_bad (data_ents A) (fo_stream fo) 0
+    | fos => zip_spec_folders fos
+    end.
+
+  (* well-formed archive: the decoded streams hold what the header declares *)
+  Fixpoint sum_sizes (ms : list mem) : Z := match ms with [] => 0 | m :: r => m_size m + sum_sizes r end.
+
+  Definition wf_folder (fo : folder) : bool :=
+    forallb (fun m => 0 <=? m_size m) (fo_mems fo) && (sum_sizes (fo_mems fo) <=? blen (fo_stream fo)).
+
+  Definition optZ_eqb (a b : option Z) : bool :=
+    match a, b with Some x, Some y => x =? y | None, None => true | _, _ => false end.
+
+  (* same member up to the id *)
+  Definition hent_sim (a b : hent) : bool :=
+    Bool.eqb (h_empty a) (h_empty b) && (h_size a =? h_size b) && optZ_eqb (h_crc a) (h_crc b).
+
+  Definition hent_eqb (a b : hent) : bool := (h_id a =? h_id b) && hent_sim a b.
+
+  Fixpoint list_eqb {X} (eqb : X -> X -> bool) (a b : list X) : bool :=
+    match a, b with
+    | [], [] => true
+    | x :: a', y :: b' => eqb x y && list_eqb eqb a' b'
+    | _, _ => false
+    end.
+
+  Definition wf_arch (A : arch) : bool :=
+    (0 <? a_mb A) && negb (pw_missing A) && forallb wf_folder (a_folders A)
+    && match a_folders A with
+       | [fo] => list_eqb hent_sim (data_ents A) (map ent_of_mem (fo_mems fo))
+       | fos => list_eqb hent_eqb (data_ents A) (flat_map (fun fo => map ent_of_mem (fo_mems fo)) fos)
+       end.
+
+End Model.
+
+(* ------------------------------------------------------------------ *)
+(** * Protocol                                                          *)
+(* ------------------------------------------------------------------ *)
+Definition of_optZ (t : tree) : option Z := of_opt of_TI t.
+Definition of_optB (t : tree) : option bool := of_opt of_bool t.
+Definition of_mem (t : tree) : mem := mkMem (of_TI (tnth t 0)) (of_TI (tnth t 1)) (of_optZ (tnth t 2)).
+Definition of_folder (t : tree) : folder :=
+  mkFo (map of_mem (of_TL (tnth t 0))) (of_bytes (tnth t 1)) (of_TI (tnth t 2)) (of_optB (tnth t 3)).
+Definition of_hent (t : tree) : hent :=
+  mkH (of_TI (tnth t 0)) (of_bool (tnth t 1)) (of_bool (tnth t 2)) (of_TI (tnth t 3)) (of_optZ (tnth t 4)).
+Definition of_kind (t : tree) : openkind :=
+  match of_TI t with 0 => ByPath | 1 => ByStream | _ => ByFileObj end.
+(* (files folders afterheader kind pwgiven enc mb fixz fixp) *)
+Definition of_arch (t : tree) : arch :=
+  mkA (map of_hent (of_TL (tnth t 0))) (map of_folder (of_TL (tnth t 1))) (of_TI (tnth t 2))
+      (of_kind (tnth t 3)) (of_bool (tnth t 4)) (of_bool (tnth t 5)) (of_TI (tnth t 6))
+      (of_bool (tnth t 7)) (of_bool (tnth t 8)).
+(* (code [T]) : 0 getnames 1 list 2 getinfo 3 archiveinfo 4 test 5 testzip 6 extractall(factory)
+   7 extractall(path) 8 extract(T, factory) 9 reset 10 needs_password *)
+Definition of_op (t : tree) : op :=
+  match of_TI (tnth t 0) with
+  | 0 => OGetnames | 1 => OList | 2 => OGetinfo | 3 => OArchiveinfo | 4 => OTest | 5 => OTestzip
+  | 6 => OXallF | 7 => OXallP | 8 => OExt (map of_TI (of_TL (tnth t 1))) | 9 => OReset | _ => ONeedsPw
+  end.
+
+Definition t_fm (m : fm) : tree :=
+  TI (match m with Fr => 0 | Fw => 1 | Fx => 2 | Fa => 3 | Frb => 4 | Fwpb => 5 | Fxpb => 6 | Frpb => 7
+               | Fwb => 8 | Fxb => 9 end).
+Definition of_fm (t : tree) : fm :=
+  match of_TI t with 0 => Fr | 1 => Fw | 2 => Fx | 3 => Fa | 4 => Frb | 5 => Fwpb | 6 => Fxpb | 7 => Frpb
+                | 8 => Fwb | _ => Fxb end.
+Definition t_ev (e : ev) : tree :=
+  match e with
+  | EvOpen h m => TL [TI 0; TI h; t_fm m]
+  | EvSeek h p => TL [TI 1; TI h; TI p]
+  | EvRead h n => TL [TI 2; TI h; TI n]
+  | EvClose h => TL [TI 3; TI h; TI 0]
+  | EvWrite h n => TL [TI 4; TI h; TI n]
+  | EvHdr h => TL [TI 5; TI h; TI 0]
+  end.
+Definition t_optZ (o : option Z) : tree := t_opt TI o.
+Definition t_value (v : value) : tree :=
+  match v with
+  | VNames ids => TL [TI 0; TL (map TI ids)]
+  | VPure => TL [TI 1]
+  | VBool b => TL [TI 2; t_bool b]
+  | VVerdict v => TL [TI 3; t_opt t_bool v]
+  | VZip b => TL [TI 4; t_optZ b]
+  | VDeliv fs ds => TL [TI 5; TL (map (fun '(i, d) => TL [TI i; t_bytes d]) fs); TL (map TI ds)]
+  | VUnit => TL [TI 6]
+  end.
+Definition t_result (r : result) : tree := t_res t_value r.
+
+Definition rsession_dispatch (fn : Z) (a : tree) : tree :=
+  match fn with
+  (* FN 200 rs_run : (arch ops) -> list of (result events fp), one per call made; stops after a hang *)
+  | 200 => let A := of_arch (tnth a 0) in
+           TL (map (fun '(r, e, p) => TL [t_result r; TL (map t_ev e); TI p])
+                   (run_trace crc32 A (fresh A) (map of_op (of_TL (tnth a 1)))))
+  (* FN 201 rs_fresh : (arch op) -> result of the call on a freshly opened archive *)
+  | 201 => let A := of_arch (tnth a 0) in t_result (snd (step crc32 A (fresh A) (of_op (tnth a 1))))
+  (* FN 202 rs_verdicts : arch -> (test_spec zip_spec wf) *)
+  | 202 => let A := of_arch a in TL [t_opt t_bool (test_spec A); t_optZ (zip_spec crc32 A); t_bool (wf_arch A)]
+  (* FN 203 rs_ctor_open : (mode can-list) -> () | (filemode) ; can-list = the modes open() accepts *)
+  | 203 => let can := map of_fm (of_TL (tnth a 1)) in
+           t_opt t_fm (ctor_open (fun m => existsb (fun c => of_TI (t_fm c) =? of_TI (t_fm m)) can) (of_fm (tnth a 0)))
+  (* FN 204 rs_open_close : arch -> (constructor events, close events) *)
+  | 204 => let A := of_arch a in TL [TL (map t_ev (ctor_events A)); TL (map t_ev (close_events A))]
+  (* FN 205 rs_disciplined : ops -> (disciplined strict) *)
+  | 205 => let ops := map of_op (of_TL a) in TL [t_bool (disciplined false ops); t_bool (strict false ops)]
+  | _ => TL [TI (-2)]
+  end.
